@@ -714,6 +714,7 @@ type GhostStmt struct {
 	Var         string
 	Expr        *SExpr
 	Src         string
+	Assert      *Clause // assert [label] EXPR @ ...: an intermediate assertion (proved at that point, then available as a fact)
 }
 
 type FuncContract struct {
@@ -964,6 +965,23 @@ func ParseSpecFile(path, pkgPath string) (*SpecFile, error) {
 				if err != nil {
 					return nil, fail(err)
 				}
+				cur.Ghost = append(cur.Ghost, gs)
+			case "assert":
+				// assert [label] EXPR @ before|after N CALLEE : a cut point inside the body
+				at := strings.LastIndex(rest, "@")
+				if at < 0 {
+					return nil, fail(fmt.Errorf("assert EXPR @ before|after N callee"))
+				}
+				cl, err := parseClause(rest[:at])
+				if err != nil {
+					return nil, fail(err)
+				}
+				cl.File, cl.Line = path, rl.line
+				gs, err := parseGhostStmt("_ = true " + rest[at:])
+				if err != nil {
+					return nil, fail(err)
+				}
+				gs.Var, gs.Expr, gs.Assert, gs.Src = "", cl.Expr, cl, rest
 				cur.Ghost = append(cur.Ghost, gs)
 			case "requires", "ensures", "invariant", "exit", "free_ensures", "ensures_local":
 				cl, err := parseClause(rest)
